@@ -213,8 +213,9 @@ Eval vm_compute in (map fst R1).
 def de_theorem_instances(res, items):
     """C02_members_are_accepted evaluated on corpus cases.  items: (query index, json text).  Coq computes R2 = the largest
     sub-environment of the corpus inside the theorem's hypotheses (de_envb), and for each case one of
-    0 = outside the hypotheses (type not closed over R2, a long array, duplicate keys), 1 = a member that is not rejected,
-    2 = a member that IS rejected (would contradict the theorem), 3 = not a member.  Returns (hypotheses hold of R2, |R2|, codes)."""
+    0 = outside the hypotheses (type not closed over R2, a long array, duplicate keys), 1 = a member that is read (DOk),
+    2 = a member that IS rejected (would contradict the theorem), 3 = not a member,
+    4 = a member set aside as a leaf the Rust type cannot represent (DMisfit: a longer string for a `char`, an integer out of range).  Returns (hypotheses hold of R2, |R2|, codes)."""
     qs = res["queries"]
     cases = coq_list(["(%s, %s)" % (C.coq_ty(qs[qi]), coq_json(parse_json(text))) for qi, text in items], sep=";\n ")
     body = ("From TsRs Require Import Corr.%s Spec.Serde Spec.SerdeDe Proofs.Sem_derive_proofs Proofs.De_proofs.\n" % res["envname"] + CR.HEADER + SEM_HEADER + """
@@ -229,7 +230,7 @@ Definition inst (R2 : env) (E2 : denv) (c : rty * json) : N :=
   let (t, j) := c in
   if mono_ty R2 t && small_arr t && wf_json j then
     match name_of R2 t with
-    | Ok a => if memberb E2 40 a j then match de is_upper R2 40 t j with DReject => 2 | _ => 1 end else 3
+    | Ok a => if memberb E2 40 a j then match de is_upper R2 40 t j with DReject => 2 | DOk _ => 1 | DMisfit => 4 end else 3
     | _ => 0
     end
   else 0.
